@@ -29,6 +29,10 @@ CHECKS = {
    technique='deterministic simulation with fault injection: enumeration of device error-status injection points (single and pairs) x 15 status codes x strict/lenient device, oversize sweep, plus seeded sampling over lengths/schedules',
    text='Every single injection point x status code x device leniency is enumerated for page counts 1..6 (quick) / 1..16 (thorough), every ordered pair for <=4 (<=8) pages, plus seeded sampling on large images with faults biased to the last erase/write; oversize lengths per variant. Exhaustive within those bounds, sampled beyond.',
    note='Trusted: the device reports failures via bStatus in the completing GETSTATUS reply. "Naming the failure" is checked weakly (non-empty exit message, uncaught exception, or an output line the fault-free twin does not print).'),
+ 'C17': dict(engine='simfs', category='fault_enumeration', ref='3.3',
+   technique='deterministic simulation with fault injection: real cli_main() on an in-memory file system; enumeration of crash points (AssemblerError / foreign exception at entry+exit of each of the 17 passes, line-granular teardown inside assemble() via sys.settrace), planted faulty lines per pass, pre-existing output files, option matrix; outputs compared with the API and an independent Intel HEX reader',
+   text='Every pass x entry/exit x exception kind is enumerated over several programs and option sets; line-level crash points are swept exhaustively for 40 programs (thorough) and sampled (quick); natural failures come from faulty lines planted so that each pass that can fail does. Success runs are compared byte-for-byte with asm.assemble() on the same snapshot, the -l file with the API labels, the .hex file through an independent decoder.',
+   note='Trusted: SimFS models the os/open subset faithfully (a sample is cross-checked on the real FS); crash points are confined to assemble() and CLI validation; write-phase I/O faults are reported as observations only.'),
 }
 
 def main():
